@@ -578,7 +578,10 @@ class SpectralDensity(DFunction, UnitsManaged):
         uvspl = interp.UnivariateSpline(self.axis.data, integr, s=0)
         integ = uvspl.integral(0.0, self.axis.max)/numpy.pi
 
-        return integ
+        # the data are in internal units, and so is their integral over
+        # d(omega)/omega; we return it in the current units, like
+        # get_reorganization_energy() does 
+        return self.convert_energy_2_current_u(integ)
 
 
     def copy(self):
